@@ -248,7 +248,7 @@ AppendPrunedSubtree(pos0) ==
     /\ Height(pos0) >= 1
     /\ Leftmost(pos0) = SizeOf(n)
     /\ n + Cardinality(LeavesUnder(pos0)) <= MaxLeaves
-    /\ ~IsPrunedC(pl, Sibling(pos0))
+    /\ (Mut = "noguard" \/ ~IsPrunedC(pl, Sibling(pos0)))
     /\ hf' = (hf \o <<pos0>>) \o ParentsCompleted(pos0, <<>>)
     /\ pl' = AppendC(pl, pos0)
     /\ n' = n + Cardinality(LeavesUnder(pos0))
